@@ -103,6 +103,15 @@ var Bindings = map[string][]Binding{
 			{Path: "cache.type", Text: "redis"},
 			{Path: "cache.config.address", Text: "redis.local:6379"},
 		}},
+		// integers in the spellings YAML knows: whatever a text means in the file it means in a variable
+		{Name: "integer-spellings", Leaves: []LeafBinding{
+			lb("serve.decision.port", KInt, "04455", "0x1195"),
+			lb("secrets_reload_enabled", KBool, "true", "false"),
+			lb("serve.proxy.port", KInt, "0o10731", "+4602"),
+			lb("profiling.port", KInt, "9_001", "9002"),
+			lb("serve.proxy.connections_limit.max_idle_per_host", KInt, "017", "9"),
+			lb("serve.management.port", KInt, "4_503", "04504"),
+		}},
 		{Name: "tls-cors-pointers", Leaves: []LeafBinding{
 			lb("serve.proxy.tls.key_store.path", KString, "/keys/a.pem", "/keys/b.pem"),
 			lb("serve.proxy.tls.key_id", KString, "key-a", "key-b"),
